@@ -377,7 +377,7 @@ func ccWaitersCase(c *mon.Case) {
 	var watchDone atomic.Bool
 	c.Go("watcher", func() {
 		<-start
-		watchErr = ccontainer.WatchChanges[int](watchCtx, initial, ctr, func(v int) error {
+		watchErr = ccontainer.WatchChanges[int](watchCtx, initial, ccontainer.ToWatchable(ctr), func(v int) error {
 			watchMu.Lock()
 			watched = append(watched, v)
 			watchMu.Unlock()
